@@ -170,6 +170,9 @@ fn specials() -> Vec<String> {
         // a label inside a macro body, defined again at top level, long expansion
         "macro m(a) -> l1: inc a inc a inc a inc a inc a inc a inc a inc a inc a inc a inc a inc a inc a inc a inc a inc a inc a inc a inc a inc a <-\nstart: m(ax)\nl1: nop\n".into(),
         "macro m(a) -> inc a l1: <-\nstart: m(ax)\nm(bx)\n".into(),
+        // ... with an expansion much longer than the whole source (long arguments), the label at its end
+        "macro m(a,b) -> add a,b add a,b add a,b add a,b add a,b add a,b add a,b add a,b add a,b add a,b add a,b add a,b l1: <-\nstart: m(word [bx, si, 0b0000000000001111], 0b0000000000000001)\nl1: nop\n".into(),
+        "macro m(a,b) -> l1: add a,b add a,b add a,b add a,b add a,b add a,b add a,b add a,b add a,b l2: <-\nstart: m(word es [bp, di, 0b0000000000001111], 0x00000001)\nl2: nop\nl1: nop\n".into(),
         // every kind of definition laid across the end of the 1 MiB address space (the loader must wrap)
         "set 0xFFFF\ndb [10]\ndb \"wrapped around!\"\nstart: print mem 0 -> 15\n".into(),
         "SET 0xFFFF\nDB [13]\nDW \"wide chars\"\nstart: print mem 0xFFFF0 -> 0xFFFFF\n".into(),
